@@ -47,7 +47,7 @@ MODELS = None
 
 def models():
     from dnplab.math import relaxation as R, lineshape as LS
-    x_t = np.linspace(0.01, 5.0, 40)
+    x_t = np.geomspace(0.01, 5.0, 40)         # log-spaced delays, the usual T1 / T2 list: NOT an equally spaced grid
     x_f = np.linspace(-20.0, 20.0, 161)
     return [
         ("t1", R.t1, x_t, [(1.2, -3.0, 3.0), (0.7, -5.0, 5.5), (2.5, 0.0, 1.0)], (1.0, -1.0, 1.0)),
@@ -67,7 +67,7 @@ def recovery_oracle(tier, seed):
     fails, n_eval = [], 0
     for name, f, x, plist, p0 in models():
         for pos in (0, 1):
-            for fit_points in (None, 55):
+            for fit_points in (None, 55, len(x)):
                 m = len(plist)
                 mat = np.stack([f(x, *p) for p in plist], axis=1)        # (n, m)
                 vals = mat if pos == 0 else mat.T
@@ -94,7 +94,10 @@ def recovery_oracle(tier, seed):
                 fo = out["fit"]
                 grid = np.asarray(fo.coords["t"])
                 k_ax = list(fo.dims).index("t")
-                ok = list(fo.dims) == dims and (fit_points is None and len(grid) == len(x) or fit_points is not None and len(grid) == fit_points)
+                # the grid of the fitted curve: the data axis when fit_points is None, else fit_points equally spaced points
+                # from min to max of the axis
+                want_grid = np.asarray(x) if fit_points is None else np.linspace(np.min(x), np.max(x), fit_points)
+                ok = list(fo.dims) == dims and len(grid) == len(want_grid) and np.allclose(grid, want_grid, rtol=1e-12, atol=1e-15)
                 for j in range(m):
                     curve = np.take(np.asarray(fo.values), j, axis=1 - k_ax)
                     if not np.allclose(curve, f(grid, *po.values[:, j]), rtol=1e-9, atol=1e-12):
